@@ -52,10 +52,18 @@ ALPHA = {
               "²", "٣", "-", "x"],
     "style": ["bold", "b", "not", "on", "link", "red", "#ff0000", "rgb(,,)", "color(300)", "none",
               "x", " ", "NOT"],
-    "markup": ["[", "]", "/", "\\", "b", "red", "=", " ", "\n", "#", "[/]", "[/b]", "[b]", "rgb(,,)"],
+    # + "\x08": a control character Text strips (\x07 \x08 \x0b \x0c \r are one class for the markup path)
+    "markup": ["[", "]", "/", "\\", "b", "red", "=", " ", "\n", "#", "[/]", "[/b]", "[b]", "rgb(,,)", "\x08"],
     "text": ["a", "あ", "́", "\t", "\n", "\r", "\x00", "\x07", "\x1b", "[", "\U0010ffff"],
-    "ansi": ["\x1b[", "m", ";", "1", "38", "5", "2", "²", "\x1b]8;", "\x1b\\", "a", "\r", "\n",
-             "99999999999999999999"],
+    # DESIGN's 14 tokens with the bare sub-mode digits "5"/"2" replaced by the composite multi-parameter
+    # forms (so that a truncated or complete 8-bit / 24-bit colour is spelled in <=4 tokens), a complete
+    # SGR run, the complete OSC 8 opener, and "\x08" = a control character Text strips inside a line
+    # (\x0b/\x0c are line boundaries for str.splitlines like "\n"; "\r" is cut by the decoder itself).
+    "ansi": ["\x1b[", "m", ";", "1", "38", "48", "38;5", "48;5", "38;2", "48;2", "\x1b[38;2;1;2", "\x1b[1m",
+             "²", "\x1b]8;", "\x1b]8;;", "\x1b\\", "a", "\x08", "\r", "\n", "99999999999999999999"],
+    # thorough only: DESIGN's original alphabet to its full length bound
+    "ansi6": ["\x1b[", "m", ";", "1", "38", "5", "2", "²", "\x1b]8;", "\x1b\\", "a", "\r", "\n",
+              "99999999999999999999"],
 }
 FAMILIES = ["color", "style", "markup", "text", "ansi"]
 # entry points per family, in evidence order
@@ -64,12 +72,18 @@ ENTRY_POINTS = {
     "style": ["style.parse", "get_style", "get_style.default"],
     "markup": ["markup.render", "print.markup"],
     "text": ["text", "print.plain"],
-    "ansi": ["ansi.decode"],
+    "ansi": ["ansi.decode", "ansi.print"],
 }
 
 
-def _maxlen(tier):
-    return 4 if tier == "quick" else 6
+def _maxlen(tier, fam=None):
+    if tier == "quick":
+        return 4
+    return 5 if fam == "ansi" else 6     # 21 tokens: 4.3 M strings at <=5; "ansi6" keeps DESIGN's <=6
+
+
+def _families(tier):
+    return FAMILIES if tier == "quick" else FAMILIES + ["ansi6"]
 
 
 def _prefix_len(tier):
@@ -264,7 +278,7 @@ def check_string(fam, s, res):
                 res.sig(("print.plain", "ok", w), nontrivial=bool(s))
             else:
                 res.sig(("print.plain", "VIOLATION", v))
-    elif fam == "ansi":
+    elif fam in ("ansi", "ansi6"):
         from rich.ansi import AnsiDecoder
         st, v = call(res, "ansi.decode", lambda: list(AnsiDecoder().decode(s)), (), case,
                      "list(AnsiDecoder().decode(%r))" % s)
@@ -272,6 +286,18 @@ def check_string(fam, s, res):
             v = v or []
             res.sig(("ansi.decode", "ok", min(len(v), 3), any(t.spans for t in v), any(t.plain for t in v)),
                     nontrivial=bool(s))
+            # errors in what the decoder built only surface when the Text is rendered
+            con = console(80)
+
+            def show():
+                for line in v:
+                    con.print(line)
+            st2, v2 = call(res, "ansi.print", show, (), case,
+                           "Console.print of every line of AnsiDecoder().decode(%r)" % s)
+            if st2 == "ok":
+                res.sig(("ansi.print", "ok", any(len(t.plain) != len(t) for t in v)), nontrivial=bool(v))
+            else:
+                res.sig(("ansi.print", "VIOLATION", v2))
         else:
             res.sig(("ansi.decode", "VIOLATION", v))
     else:
@@ -299,7 +325,7 @@ def _tok_short(fam, plen):
 
 def _part_tok(sh, tier, res):
     fam = sh["fam"]
-    maxlen = _maxlen(tier)
+    maxlen = _maxlen(tier, fam)
     it = _tok_short(fam, sh["plen"]) if sh["prefix"] is None else _tok_strings(fam, sh["prefix"], maxlen)
     n = 0
     with _Timer():
@@ -646,7 +672,7 @@ def plan(tier, seed):
     # trees first: the expensive shards start early
     nt = 48 if tier == "quick" else 192
     shards += [{"part": "tree", "i": i, "n": nt} for i in range(nt)]
-    for fam in FAMILIES:
+    for fam in _families(tier):
         shards.append({"part": "tok", "fam": fam, "prefix": None, "plen": plen})
         for prefix in itertools.product(range(len(ALPHA[fam])), repeat=plen):
             shards.append({"part": "tok", "fam": fam, "prefix": list(prefix), "plen": plen})
@@ -672,9 +698,12 @@ def describe(tier, seed, res):
     c = res.counters
     return {
         "rule": "tok: every concatenation of <=%d tokens of the family alphabet (color %d, style %d, markup %d, text %d, "
-                "ansi %d tokens) through every entry point of the family (Color.parse | Style.parse, Console.get_style "
+                "ansi %d tokens%s) through every entry point of the family (Color.parse | Style.parse, Console.get_style "
                 "with and without default | markup.render, Console.print | Text(), Console.print(markup=False) at widths "
-                "80, 2, 1%s | AnsiDecoder.decode). tree: every chain leaf | container(leaf)%s with <=2 option deviations "
+                "80, 2, 1 | AnsiDecoder.decode, then Console.print of every decoded line). The markup and ansi alphabets "
+                "contain a control character that Text strips; the ansi alphabet contains the multi-parameter SGR forms "
+                "(38;5 48;5 38;2 48;2, a 24-bit prefix), a complete SGR run and the OSC 8 opener as single tokens. "
+                "tree: every chain leaf | container(leaf)%s with <=2 option deviations "
                 "from the constructor defaults (at most one value per option), each at every width 1..24, 40, 200 through "
                 "list(Console.render()) and Measurement.get(); leaves Text (%d strings), Rule, Bar, ProgressBar, empty "
                 "Table, empty Columns, empty RenderGroup; containers Panel, Padding, Align, Constrain, Styled, RenderGroup "
@@ -684,7 +713,8 @@ def describe(tier, seed, res):
                 "raised the documented error, parsed something, or produced visible output; distinct = (entry point | "
                 "container kinds, width class, outcome class) signatures."
                 % (L, len(ALPHA["color"]), len(ALPHA["style"]), len(ALPHA["markup"]), len(ALPHA["text"]),
-                   len(ALPHA["ansi"]), "",
+                   len(ALPHA["ansi"]),
+                   "" if tier == "quick" else " up to 5 tokens, plus the 14-token alphabet of DESIGN.md up to 6",
                    "" if tier == "quick" else " | container(container(leaf)) (first layout, core option menu)",
                    len(TEXTS_Q if tier == "quick" else TEXTS_T),
                    "; quick uses the core option menu for Table and Columns" if tier == "quick" else ""),
